@@ -70,6 +70,10 @@ def showSearch (db : DB) : String :=
 def showList (db : DB) : String :=
   joinOr (db.listing.map fun e => s!"{idStr e.1}:{e.2}")
 
+/-- `/uploads?limit=2`: the two newest uploads that have records -/
+def showList2 (db : DB) : String :=
+  joinOr ((db.listing.take 2).map fun e => s!"{idStr e.1}:{e.2}")
+
 def showFiles (fs : Store) (withData : Bool) : String :=
   joinOr (sortStrings (fs.map fun e =>
     s!"{(Bytes.ofString (pathStr e.1)).toHex}={if withData then e.2.toHex else ""}"))
@@ -93,8 +97,8 @@ def handleUp (l : Line) : IO Unit := do
       -- App.upload refuses the request before processUpload (Auth error, method, MultipartReader error):
       -- http.Error and return; nothing is touched
       let status := if pre == "method" then "405" else "500"
-      IO.println s!"obs {l.id} step={step} status={status} err=refused id=- fids=- trace=- nup={s.db.uploads.length} own=0 search={showSearch s.db} list={showList s.db} files={showFiles s.fs withData}"
-      IO.println s!"spec {l.id} step={step} ok=0 vis=0,0,0 lab=0,0,0 listed=0 inprog=0 earlier=1 idsok=1 stored=-"
+      IO.println s!"obs {l.id} step={step} status={status} err=refused id=- fids=- trace=- nup={s.db.uploads.length} own=0 search={showSearch s.db} list={showList s.db} l2={showList2 s.db} files={showFiles s.fs withData}"
+      IO.println s!"spec {l.id} step={step} ok=0 vis=0,0,0 lab=0,0,0 listed=0 lim=1 inprog=0 earlier=1 idsok=1 stored=-"
       step := step + 1
       continue
     let o := processUpload env req s
@@ -104,7 +108,7 @@ def handleUp (l : Line) : IO Unit := do
       | .error e => ("500", errStr e, "-")
     let rid := match o.alloc with | some k => idStr k | none => "-"
     let own := match o.alloc with | some k => (s.db.queryUpload k).length | none => 0
-    IO.println s!"obs {l.id} step={step} status={status} err={err} id={rid} fids={fids} trace={showTrace o.trace} nup={s.db.uploads.length} own={own} search={showSearch s.db} list={showList s.db} files={showFiles s.fs withData}"
+    IO.println s!"obs {l.id} step={step} status={status} err={err} id={rid} fids={fids} trace={showTrace o.trace} nup={s.db.uploads.length} own={own} search={showSearch s.db} list={showList s.db} l2={showList2 s.db} files={showFiles s.fs withData}"
     -- specification
     let refused := Spec.UploadAtomic.reachesAlloc req.parts && Spec.UploadAtomic.clockRefuses days day
     let fail := Spec.UploadAtomic.mustFail env req (cutFlag != 0) days
@@ -114,10 +118,10 @@ def handleUp (l : Line) : IO Unit := do
     if cutFlag != 0 && modelOk && !Spec.UploadAtomic.structuralFault req then kf := kf ++ ["N20c"]
     let kfs := if kf.isEmpty then "" else " kf=" ++ "+".intercalate kf
     if fail then
-      IO.println s!"spec {l.id} step={step} ok=0 vis=0,0,0 lab=0,0,0 listed=0 inprog=0 earlier=1 idsok=1 stored=-{kfs}"
+      IO.println s!"spec {l.id} step={step} ok=0 vis=0,0,0 lab=0,0,0 listed=0 lim=1 inprog=0 earlier=1 idsok=1 stored=-{kfs}"
     else
       let n := Spec.UploadAtomic.visible req
-      IO.println s!"spec {l.id} step={step} ok=1 vis={n},{n},{n} lab={n},{n},{n} listed=1 inprog=0 earlier=1 idsok=1 stored={specFiles (Spec.UploadAtomic.storedFiles env req.parts 0) withData}{kfs}"
+      IO.println s!"spec {l.id} step={step} ok=1 vis={n},{n},{n} lab={n},{n},{n} listed=1 lim=1 inprog=0 earlier=1 idsok=1 stored={specFiles (Spec.UploadAtomic.storedFiles env req.parts 0) withData}{kfs}"
     step := step + 1
 
 /-- record j of the db-level scenarios (harness idsRecord) -/
